@@ -524,7 +524,7 @@ class Sim:
             pass
 
 
-FLAGS = ("guard", "clocks", "prev", "start", "gate", "err", "once", "idle", "cancel2")
+FLAGS = ("guard", "clocks", "prev", "start", "gate", "err", "once", "idle", "cancel2", "scope")
 
 
 def cfg_line(cfg: dict, mode: str) -> str:
@@ -638,8 +638,14 @@ def probe() -> dict[str, bool]:
         cancel2 = len(sim.e.uod.command_instances) == 0
     finally:
         sim.close()
+    # scope: does a run start clear the Scope Time timers / stack (/repo 29706dcf) - a scope left open by Stop
+    _, _, r = execute({"method": "Watch: Run Counter >= 0\n    Wait: 20s",
+                       "ops": [["user", "Start"]] + [["tick", 8, 8, 0]] * 4 + [["user", "Stop"], ["tick", 8, 8, 0],
+                                                                             ["tick", 8, 8, 0], ["user", "Start"],
+                                                                             ["tick", 8, 8, 0]]}, "c07", {})
+    scope = r[-1]["sc"] == 0
     return {"guard": guard, "clocks": clocks, "prev": prev, "start": start, "gate": gate, "err": err,
-            "once": once, "idle": idle, "cancel2": cancel2}
+            "once": once, "idle": idle, "cancel2": cancel2, "scope": scope}
 
 
 # ---------------------------------------------------------------------------------------
